@@ -178,6 +178,8 @@ type Store struct {
 	gate     Gate
 	logCalls bool
 	onAddRm  func(hash string)
+	// Outage names backend call kinds (e.g. "SendMail RenderMail") that fail for as long as it is set.
+	Outage string
 	// FoldPid makes Load resolve PIDs case-insensitively (a normalising
 	// database collation); stored records keep their own spelling.
 	FoldPid bool
@@ -209,6 +211,9 @@ func (s *Store) call(ctx context.Context, kind, key string) error {
 	defer s.mu.Unlock()
 	if s.logCalls {
 		s.Calls = append(s.Calls, c)
+	}
+	if s.Outage != "" && strings.Contains(s.Outage, kind) {
+		return ErrIO // the whole backend of this kind is down (C16 under an outage)
 	}
 	if f := s.fault; f != nil {
 		f.seen++
